@@ -225,6 +225,11 @@ func checkC06(c *Ctx) {
 	c.Decides("ROOT-REPLACED (go/cfg): where removeTip has established that the node it is about to delete is the root, every successful path installs another root first")
 	c.rootReplaced("ROOT-REPLACED", []*FuncInfo{rt}, "yields the tree induced on the remaining tips")
 	c.Floor("ROOT-REPLACED", 1)
+	c.Decides("ARG-INPLACE (shared with C05): no function of package tree or of the commands filters a slice parameter in place: the tip list read once from the tip file is the same for every input tree")
+	{
+		sites, _ := c.argInplace("ARG-INPLACE", append(c.AllFuncs("tree"), c.AllFuncs("cmd")...), "Names not present in the tree are ignored")
+		c.Trivial("ARG-INPLACE", "scan", 0, fmt.Sprintf("%d functions with a slice parameter", sites))
+	}
 	c.Decides("REVISIT: after removeTip has moved up a chain of emptied single-child nodes, every successful path tests the node it stopped at for having exactly two neighbours left (the suppression of the degree-2 node applies to that node too)")
 	if c.revisitAfterMove("REVISIT", rt, "no inner node of degree two left behind") == 0 {
 		c.Undecided("REVISIT", "tree.Tree.removeTip", rt.Decl.Pos(), "no re-assignment of a node local inside a loop found in removeTip (the walk up the emptied chain was the instance confirmed by hand)")
